@@ -194,7 +194,7 @@ fn check_name(ev: &mut Ev, name: &str, ctx: &gm::SumCtx) -> CaseResult {
     Ok(())
 }
 
-fn check_probe(ev: &mut Ev, pr: &gm::Probe) -> CaseResult {
+fn check_probe(ev: &mut Ev, pr: &gm::Probe, related: bool) -> CaseResult {
     let version = format!("{}nb{}", pr.prefix, pr.digits);
     let name = format!("{}-{}", pr.base, version);
     ev.count("probe/matcher");
@@ -240,6 +240,10 @@ fn check_probe(ev: &mut Ev, pr: &gm::Probe) -> CaseResult {
     // equal-valued spelling in front of the revision, with a revision of its
     // own in front of the package's.  Expected verdicts from the reference
     // dewey model (only where it is K1-free and inside its digit bound).
+    if !related {
+        ev.nontrivial(hash_bytes(name.as_bytes()));
+        return Ok(());
+    }
     let rel_bounds = [
         pr.prefix.clone(),
         format!("{}.0nb{}", pr.prefix, pr.n),
@@ -305,6 +309,7 @@ fn probe_is_sound(pr: &gm::Probe) -> bool {
 pub fn run(cx: &mut Cx) {
     cx.ev.require("summary/ctx/renamed_after_parse");
     cx.ev.require("probe/related-bounds");
+    cx.ev.require("probe/extreme-prefix");
     cx.default_budget();
     for k in [
         "dashes/0", "dashes/1", "dashes/2", "dashes/3", "dashes/4", "nb/0", "nb/1", "nb/2+",
@@ -341,7 +346,39 @@ pub fn run(cx: &mut Cx) {
         };
         cx.check(
             || format!("probe {}-{}nb{} (N={})", pr.base, pr.prefix, pr.digits, pr.n),
-            |ev| check_probe(ev, &pr),
+            |ev| check_probe(ev, &pr, true),
+        );
+    }
+
+    // (b') the same probes with a prefix the reference cannot order: a number
+    // that does not fit 64 bits (or just does), in front of the revision or
+    // further up.  The bounds repeat the prefix character for character, so
+    // whatever it is worth it ties with itself and the revision decides.
+    let n = cx.per_shard(16, 800, 12_000, 120_000);
+    let mut r = cx.stream("probes-extreme-prefix");
+    const EXTREME: [&str; 8] = [
+        "9223372036854775807", "9223372036854775808", "99999999999999999999", "18446744073709551615", "18446744073709551616",
+        "10000000000000000000000000000000000000000", "20240131235959123456789", "4294967296",
+    ];
+    for _ in 0..n {
+        let mut pr = gm::probe(&mut r);
+        if pr.prefix.len() > 200 {
+            pr.prefix = "1.2".into();
+        }
+        let x = *r.pick(&EXTREME);
+        let sep = *r.pick(&["", ".", "_", "rc", "."]);
+        pr.prefix = match r.below(4) {
+            0 => format!("{}{sep}{x}", pr.prefix),
+            1 => format!("{x}{sep}{}", pr.prefix),
+            2 => format!("{}{sep}{x}.{}", pr.prefix, r.below(9)),
+            _ => format!("{}{sep}{x}{}", pr.prefix, r.pick(&["alpha", "rc", ".", "_", "pl"])),
+        };
+        cx.check(
+            || format!("probe (prefix outside the reference's domain) {}-{}nb{} (N={})", pr.base, pr.prefix, pr.digits, pr.n),
+            |ev| {
+                ev.count("probe/extreme-prefix");
+                check_probe(ev, &pr, false)
+            },
         );
     }
 
